@@ -8,8 +8,10 @@ import (
 
 // advMakerPlan: node 1 is a hostile maker, node 0 the real taker.
 func advMakerPlan(t *rapid.T, chains []string, deviate bool) *world.Plan {
+	// the real taker runs its real Lightning adapter (tier 2 / 3) in 60% of the plans: what it
+	// decodes, validates and pays is then what the adapter makes of the hostile maker's invoices
 	p := genPlan(t, genOpts{chains: chains, types: []string{"swapout"}, sched: true, maxNet: 1, maxCrashes: 1, reorgs: true, duration: []int{300, 900},
-		restartMs: []int{500, 5000, 60000}})
+		restartMs: []int{500, 5000, 60000}, adapters: 60, clnAdapters: 60})
 	p.Scn.Kind = [2]string{"real", "adv"}
 	chain := p.Ops[0].Chain
 	amount := p.Ops[0].Amount
@@ -63,7 +65,7 @@ func advMakerPlan(t *rapid.T, chains []string, deviate bool) *world.Plan {
 			case 9:
 				cfg.Open.Broadcast = pick(t, "bc", []string{"none", "hold"})
 			case 10:
-				cfg.Inv.AmountDeltaMsat = pick(t, "invamt", []int64{-1, 1, 1000, -1000})
+				cfg.Inv.AmountDeltaMsat = pick(t, "invamt", []int64{-1, 1, 1, 500, 999, 1000, -1000})
 			case 11:
 				cfg.Inv.Hash = "other"
 			case 12:
@@ -109,6 +111,21 @@ func init() {
 				crashAt := pick(t, "crashat2", []int{4000, 6000, 9000, 12000})
 				p.Ops = append(p.Ops, world.Op{AtMs: crashAt, Node: 0, Kind: "crash", N: int64(pick(t, "down", []int{40000, 70000}))})
 				p.Chain = append(p.Chain, world.ChainEv{AtMs: crashAt + 2000, Chain: cfg.Chain, Kind: "reorg-deep-ifdown", N: cfg.ConfirmNow + rapid.IntRange(0, 2).Draw(t, "deeper"), Node: 0})
+				return p
+			}
+			if rapid.IntRange(0, 5).Draw(t, "invoice-only") == 0 {
+				// focused: a correct, confirmed opening; only the claim invoice deviates (amount off by
+				// less than a satoshi up to a whole one, another hash, odd CLTV). What the taker's
+				// Lightning adapter makes of such an invoice decides.
+				p := advMakerPlan(t, nil, false)
+				switch rapid.IntRange(0, 3).Draw(t, "invdev") {
+				case 0, 1:
+					p.AdvCfg.Inv.AmountDeltaMsat = pick(t, "invamt2", []int64{1, 999, 500, -1, -999, 1000, -1000, 1001})
+				case 2:
+					p.AdvCfg.Inv.Hash = "other"
+				case 3:
+					p.AdvCfg.Inv.CLTV = pick(t, "invcltv2", []int{1, 29, 30, 100, 503, 504, 505})
+				}
 				return p
 			}
 			return advMakerPlan(t, nil, rapid.IntRange(0, 4).Draw(t, "honest") != 0)
